@@ -238,16 +238,101 @@ def gen_fromfile(rng):
         for mol, ks, size, ab in groups:
             for k in ks:
                 r = rng.random()
-                if r < 0.3:
+                if r < 0.4:
                     num, scaled = (size[1], 0) if size and size[0] == "num" else (0, size[1] if size else (1000 if mol == "dna" else 200))
                     kk, a2 = k, ab
-                    if rng.random() < 0.3:
-                        kk, a2 = rng.choice([(k + 1, ab), (k, not ab), (k, ab)])
+                    v = rng.random()
+                    if v < 0.2:
+                        a2 = not ab                       # differs ONLY in abundance tracking
+                    elif v < 0.3:
+                        num, scaled = (0, num) if num else (scaled, 0)     # differs ONLY in num vs scaled
+                    elif v < 0.4:
+                        kk = k + 1
+                    elif v < 0.45:
+                        mol2 = rng.choice(["dna", "protein", "dayhoff", "hp"])
+                        done.append(f"{hx(n)}:{mol2}:{kk}:{num}:{scaled}:{int(a2)}")
+                        continue
                     done.append(f"{hx(n)}:{mol}:{kk}:{num}:{scaled}:{int(a2)}")
     if rng.random() < 0.3:
         done.append(f"{hx('stranger')}:dna:21:0:1000:0")
     return (f"fromfile {int(rng.random() < 0.3)} P " + " ".join(hx(s) for s in strs) + " " + " ".join(ftoks) +
             " R " + " ".join(rows) + " A " + " ".join(done)).replace("  ", " ")
+
+
+def _files(rng, kind, nmax=3, subdirs=True):
+    toks, used = [], set()
+    pool = ["a.fa", "b.fasta", "in put.fa", "c", "d.fa"] + (["sub/e.fa"] if subdirs else [])
+    for f in range(rng.choice(list(range(1, nmax + 1)))):
+        fname = rng.choice(pool)
+        if fname in used:
+            continue
+        used.add(fname)
+        toks += ["F", hx(fname)]
+        for i in range(rng.choice([0, 1, 1, 2, 3])):
+            name = rng.choice([f"r{i}", f"r{i} some description", "dup", f"s{f}_{i}|x"])
+            seq = prot_record(rng, 4, 40) if kind == "protein" else dna_record(rng, 6, 60).replace("-", "N")
+            toks.append(hx(name) + ":" + hx(seq))
+    return toks or ["F", hx("a.fa")]
+
+
+def _mode(rng, allow_merge_rand=True):
+    mode = rng.choice(["file", "file", "first", "singleton", "merge"])
+    if mode == "merge":
+        mode = "merge:" + hx(rng.choice(["m", "my name", "s0"]))
+    r = rng.random()
+    if r < 0.2:
+        mode += "+dir"
+    elif r < 0.35:
+        mode += "+cwd"
+    elif r < 0.38:
+        mode += "+newdir"
+    if rng.random() < 0.15:
+        mode += "+check"
+    return mode
+
+
+def gen_sk(rng):
+    """`sourmash sketch dna|protein|translate` through the command line (main(), in-process): general -p groups
+    (several groups, repeated k, every molecule type of the subcommand, abund, seeds), file / first / singleton /
+    merge, -o / --output-dir / cwd, --from-file, --check-sequence"""
+    sub = rng.choice(["dna", "dna", "protein", "translate"])
+    dm = "dna" if sub == "dna" else rng.choice(["protein", "dayhoff", "hp"])
+    strs = []
+    for _ in range(rng.choice([0, 1, 1, 2, 3])):
+        if rng.random() < 0.08:
+            strs.append(rng.choice(["k=21,foo", "num=5,scaled=10", "scaled=0", "num=-5", "k", "protein" if sub == "dna" else "dna"]))
+        else:
+            g, st = gen_group(rng, dm, fancy=False, zero_ok=False)
+            strs.append(st or "k=5")
+    mode = _mode(rng)
+    if sub == "protein":
+        mode = mode.replace("+check", "")            # `sketch protein` has no --check-sequence
+    if rng.random() < 0.3 and not mode.startswith("merge") and any(f in mode for f in ("+dir", "+cwd")):
+        # --from-file LIST: the list is read into a set, the order of the inputs is lost; only the per-file
+        # layouts (sorted by output path here) do not depend on it
+        mode += "+fromfile"
+    if rng.random() < 0.1:
+        mode += "+rand"
+    return (f"sk {sub} {dm} {mode} P " + " ".join(hx(x) for x in strs) + " " +
+            " ".join(_files(rng, "protein" if sub == "protein" else "dna"))).replace("  ", " ")
+
+
+def gen_cmp(rng):
+    """the deprecated `sourmash compute` through the command line: -k list, --dna/--no-dna, --protein, --dayhoff,
+    --hp, -n, --scaled (also 0.5 and 2.5), --track-abundance, --seed, --input-is-protein, and the file handling options"""
+    inprot = int(rng.random() < 0.2)
+    fl = [int(rng.random() < 0.7), int(rng.random() < 0.3), int(rng.random() < 0.2), int(rng.random() < 0.2)]
+    if rng.random() < 0.7:
+        ks = ",".join(str(3 * rng.randint(1, 7)) for _ in range(rng.randint(1, 3)))
+    else:
+        ks = ",".join(str(rng.choice([4, 5, 7, 21, 31])) for _ in range(rng.randint(1, 2)))
+    num = rng.choice([500, 500, 0, 3, 20])
+    sc = rng.choice(["0", "0", "1", "2", "10", "lt1", "frac", "1000"])
+    mode = _mode(rng)
+    if rng.random() < 0.15 and not mode.startswith("merge") and any(f in mode for f in ("+dir", "+cwd", "+newdir")):
+        mode += "+rand"          # --randomize: only the per-file layouts are order-independent
+    return (f"cmp {ks} {fl[0]} {fl[1]} {fl[2]} {fl[3]} {num} {sc} {int(rng.random() < 0.3)} {rng.choice([42, 42, 7])} {inprot} "
+            f"{mode} " + " ".join(_files(rng, "protein" if inprot else "dna")))
 
 
 def gen_names(rng):
@@ -290,6 +375,14 @@ def gen_case(rng, flavour):
     n = rng.randint(4, 10)
     for _ in range(n):
         r = rng.random()
+        if flavour == "cli":
+            if r < 0.45:
+                lines.append(gen_sk(rng))
+            elif r < 0.8:
+                lines.append(gen_cmp(rng))
+            else:
+                lines.append(gen_fromfile(rng).replace("fromfile ", "fromfilecli ", 1))
+            continue
         if flavour == "names":
             if r < 0.35:
                 lines.append(gen_fromfile(rng))
@@ -407,6 +500,31 @@ def plain_reading(pstr, cmd_mol):
 HFN = {"dna": 1, "protein": 2, "dayhoff": 3, "hp": 4}
 
 
+def _units(mode, files):
+    """(name, filename) of every signature set the documentation promises, in order; None = nothing promised"""
+    if mode == "singleton":
+        return [(n, f) for f, recs in files for n in recs]
+    if mode == "first":
+        return [(recs[0], f) for f, recs in files if recs]
+    if mode == "file":
+        return [("", f) for f, recs in files if recs]
+    nm = unhx(mode.split(":")[1])
+    return [(nm, None)] if any(recs for _, recs in files) else []
+
+
+def _files_of(toks):
+    files, cur = [], None
+    for t in toks:
+        if t == "F":
+            cur = None
+        elif cur is None:
+            cur = (unhx(t), [])
+            files.append(cur)
+        else:
+            cur[1].append(unhx(t.split(":")[0]))
+    return files
+
+
 def oracle(case, impl):
     """(op_index, signature, message)"""
     bad = []
@@ -463,7 +581,7 @@ def oracle(case, impl):
                 else:
                     cur[1].append(unhx(t.split(":")[0]))
             got = [tuple(unhx(x) for x in g.split("|")[1:3]) for g in obs[3:].split(";")] if obs[3:] else []
-            if any(f in oflags for f in ("dir", "cwd")):
+            if any(f in oflags for f in ("dir", "cwd", "newdir")):
                 continue          # sorted by output path: the order check below is for the single-output mode
             if mode == "singleton":
                 exp = [(n, f) for f, recs in files for n in recs]
@@ -478,7 +596,43 @@ def oracle(case, impl):
             if not ok:
                 bad.append((idx, "C14:sketch:wrong-names", f"`sketch` in mode {mode.split(':')[0]} on files {files} wrote signatures (name, filename) = {got}; "
                                                             f"the documentation promises {exp}"))
-        elif w[0] == "fromfile" and (obs.startswith("ok") or obs.startswith("exit")):
+        elif w[0] in ("sk", "cmp") and obs.startswith("ok"):
+            # the command line: every unit (file / record / merged) carries one sketch per requested (k, moltype)
+            if w[0] == "sk":
+                dm = w[2]
+                iF = w.index("F") if "F" in w else len(w)
+                strs = [unhx(t) for t in w[5:iF]]
+                rd = [plain_reading(x, dm) for x in strs] if strs else [{"mol": dm, "ks": [], "num": None, "scaled": None, "track": None, "seed": None}]
+                if any(r is None for r in rd):
+                    continue
+                sk = []
+                for g in rd:
+                    mol = g["mol"] or dm
+                    for k in (g["ks"] or [DOC_DEFAULT_K[mol]]):
+                        sk.append((k * (1 if mol == "dna" else 3), HFN[mol]))
+                mtok, ftoks = w[3], w[iF:]
+            else:
+                ks = [int(x) for x in w[1].split(",")]
+                dna, pr, dy, hp, inprot = w[2] == "1", w[3] == "1", w[4] == "1", w[5] == "1", w[10] == "1"
+                if inprot and dna:
+                    dna, pr = False, True
+                mols = [m for m, on in (("protein", pr), ("dayhoff", dy), ("hp", hp), ("dna", dna)) if on]
+                sk = [(k, HFN[m]) for k in ks for m in mols]
+                mtok, ftoks = w[11], w[12:]
+            mode = mtok.split("+")[0]
+            units = _units(mode, _files_of(ftoks))
+            exp = sorted((n, f, k, h) for n, f in units for k, h in sk)
+            got = []
+            for g in [x for x in obs[3:].split(";") if x]:
+                pth, n, f, prm = g.split("|")[:4]
+                got.append((unhx(n), unhx(f), int(prm.split(":")[0]), int(prm.split(":")[1])))
+            ok = len(got) == len(exp) and all(g[0] == e[0] and (e[1] is None or g[1] == e[1]) and g[2:] == e[2:]
+                                              for g, e in zip(sorted(got, key=lambda x: (x[0], x[2], x[3], x[1])),
+                                                              sorted(exp, key=lambda x: (x[0], x[2], x[3], x[1] or ""))))
+            if not ok:
+                bad.append((idx, "C14:cli:wrong-sketch-set", f"`{' '.join(w[:4])} ...` wrote (name, file, k, moltype) = {sorted(got)[:8]} but one sketch per "
+                                 f"requested (k, moltype) for each of the units {units[:6]} is {exp[:8]}"))
+        elif w[0] in ("fromfile", "fromfilecli") and (obs.startswith("ok") or obs.startswith("exit")):
             # built + already done + impossible = names x parameter sets; nothing twice, nothing lost
             toks = w[3:]
             def upto(ts, marks):
